@@ -45,7 +45,7 @@ ASSUME = [
 ]
 
 
-def gen_cfg(maxslots, kindmode, cs, archg, by, emit=True, bug="none", sub=("plain", "sub", "stop", "dup")):
+def gen_cfg(maxslots, kindmode, cs, archg, by, emit=True, bug="none", sub=("plain", "sub", "stop", "dup", "again")):
     st = lambda xs: "{" + ", ".join(str(x) for x in xs) + "}"
     return ("SPECIFICATION Spec\nCONSTANTS\n  Bug = \"%s\"\n  MaxSlots = %d\n  KindMode = \"%s\"\n  Cs = %s\n  ArchG = %s\n"
             "  ByOpts = %s\n  SubOpts = %s\n  Emit = %s\nINVARIANTS %s\nCHECK_DEADLOCK FALSE\n"
@@ -89,7 +89,7 @@ def check(ctx):
         return selftest(ctx)
     quick = ctx.tier == "quick"
     allc = [1, 2, 3, 4, 5, 8]
-    B = ["plain", "sub", "stop", "dup"]   # SubOpts: the script works in $WORK / after `cd sub` with every entry under sub/ / ends with a `stop` line
+    B = ["plain", "sub", "stop", "dup", "again"]   # SubOpts: the script works in $WORK / after `cd sub` with every entry under sub/ / ends with a `stop` line
     # (MaxSlots, KindMode, Cs, ArchG, ByOpts, driver stride, walks per worker, SubOpts); bounds fitted to measured counts, see REGISTRY.
     # walks = 0: TLC explores every state; walks > 0: seeded random walks (-simulate, SIM_WORKERS workers) through a slot
     # domain with three goldens that is too large to enumerate; TLC checks and emits EVERY successor of every state on a
